@@ -14,7 +14,7 @@ import (
 func init() {
 	fw.Register(&fw.Check{
 		ID: "C12", Level: "model_checking",
-		Rule:   "ALL inheritance graphs over 2..3 (quick) / 2..4 (thorough) object types: every assignment of an ordered list of 0..2 distinct bases to each type (chains, several bases, shared bases, diamonds, cycles) x own-property pattern per type {one private property, private + a name shared by all, none, private + a property keyed by a type reference, private + a name that differs from the other types' in letter case only} x ALL declaration orders x host of an additional inheriting schema {none, request, response, response headers, query, nested object property of a type}; oracle, in every accepted document: each type's property list = the reference inheritance (bases in naming order, transitively, each property marked with the named base it came through, each key once, own properties last) and base types stay as declared; plus negative cases (override of an inherited property, non-object base, undefined base) rejected; non-trivial = accepted document with at least one allOf; distinct = distinct documents",
+		Rule:   "ALL inheritance graphs over 2..3 (quick) / 2..4 (thorough) object types: every assignment of an ordered list of 0..2 distinct bases to each type (chains, several bases, shared bases, diamonds, cycles) x own-property pattern per type {one private property, private + a name shared by all, none, private + a property keyed by a type reference, private + a name that differs from the other types' in letter case only} x ALL declaration orders x host of an additional inheriting schema {none, request, response, response headers, query, nested object property of a type}; oracle, in every accepted document: each type's property list = the reference inheritance (bases in naming order, transitively, each property marked with the named base it came through, each key once, own properties last) and base types stay as declared; plus negative cases (override of an inherited property, non-object base, undefined base) rejected; non-trivial = accepted document with at least one allOf; distinct = distinct documents ; own-property names that differ from one another in letter case only are different properties",
 		Assume: []string{"documents the schema library rejects (e.g. the same key reachable through two bases, cycles) are counted, not judged: the property speaks about accepted documents"},
 		Run:    runC12, QuickCap: 8 * time.Minute, ThoroughCap: 40 * time.Minute,
 	})
